@@ -103,7 +103,11 @@ func builtinNumberToLocaleString(call FunctionCall) Value {
 	locale := call.Argument(0)
 	lang := defaultLanguage
 	if locale.IsDefined() {
-		lang = language.MustParse(locale.string())
+		var err error
+		lang, err = language.Parse(locale.string())
+		if err != nil {
+			panic(call.runtime.panicRangeError("Incorrect locale information provided"))
+		}
 	}
 
 	p := message.NewPrinter(lang)
